@@ -53,7 +53,7 @@ class Prop(PropBase):
                     for k in range(rng.choice([0, 1, 2])):
                         s.pkt(0, ms.msop(gap_prob=0.05))
                     kd, vert, horiz, raw = scen.cali_table(rng, l, 'valid' if kind in ('valid2', 'badid', 'badlen') else kind)
-                    dp = l.difop(dual=dual, rpm=rng.choice([300, 600, 1200]), fov=rng.choice([(0, 36000), (4500, 31500)]), vert=vert, horiz=horiz, raw_cali=raw)
+                    dp = l.difop(dual=dual, rpm=rng.choice([300, 600, 1200]), fov=rng.choice([(0, 36000), (4500, 31500), (31500, 4500), (27000, 9000), (0, 0)]), vert=vert, horiz=horiz, raw_cali=raw)
                     if kind == 'badid':
                         b = bytearray(dp); b[idpos] ^= rng.choice([0x01, 0x80, 0xFF]); dp = bytes(b)
                         idpos = 2 + (idpos - 1) % (len(l.difop_id) - 2)
@@ -66,7 +66,7 @@ class Prop(PropBase):
                     # a later DIFOP changes rpm / FOV / return mode: must govern the following MSOP packets
                     dual = not dual if rng.random() < 0.5 else dual
                     ms.dual = dual
-                    s.pkt(0, l.difop(dual=dual, rpm=rng.choice([300, 1200, 2400]), fov=rng.choice([(0, 36000), (9000, 27000)])))
+                    s.pkt(0, l.difop(dual=dual, rpm=rng.choice([300, 1200, 2400]), fov=rng.choice([(0, 36000), (9000, 27000), (33000, 3000), (18000, 17000)])))
                     for k in range(2):
                         s.pkt(0, ms.msop(gap_prob=0.3))
                 scn_all.append(s.text())
